@@ -419,6 +419,9 @@ func (node *UntrustedNode) monitorRequestTimeouts(ctx context.Context) {
 // sendOutgoing waits for and sends outgoing messages
 //
 // This is a blocking function that will run forever, so it should be run in a goroutine.
+// untrustedWriteTimeout is how long a write to an untrusted peer can take before the peer is dropped.
+const untrustedWriteTimeout = 10 * time.Second
+
 func (node *UntrustedNode) sendOutgoing(ctx context.Context) error {
 
 	for msg := range node.outgoing.Channel {
@@ -426,7 +429,7 @@ func (node *UntrustedNode) sendOutgoing(ctx context.Context) error {
 		connection := node.connection
 		node.lock.Unlock()
 
-		if connection == nil {
+		if connection == nil || node.isStopping() {
 			// logger.Debug(ctx, "(%s) Dropping %s message", node.address, msg.Command())
 			continue // Keep clearing the channel
 		}
@@ -436,6 +439,9 @@ func (node *UntrustedNode) sendOutgoing(ctx context.Context) error {
 			logger.Verbose(ctx, "(%s) Sending Tx : %s", node.address, tx.TxHash().String())
 		}
 
+		// A peer that stops reading would block this write for ever. The channel then fills up and
+		// everything that adds to it, while holding locks the trusted node needs, blocks with it.
+		connection.SetWriteDeadline(time.Now().Add(untrustedWriteTimeout))
 		if err := sendAsync(ctx, connection, msg, wire.BitcoinNet(node.config.Net)); err != nil {
 			logger.Warn(ctx, "(%s) Failed sending command %s : %s", node.address, msg.Command(), err)
 			// don't break out of the loop because we need to continue emptying the channel.
